@@ -96,6 +96,10 @@ class InternalCompiler(Compiler):
 
         # 3. If expr is already been computed, return its index
         elif expr in self.expqmap:
+            # If a destination is given, accumulate the already computed value on it
+            if dest is not None and self.expqmap[expr] != dest:
+                qc.cx(self.expqmap[expr], dest)
+                return dest
             return self.expqmap[expr]
 
         # 4. Special mappings section
